@@ -41,7 +41,8 @@ Unsigned  == {"uint32", "uint64"}
 KeyKinds  == {"key", "key_id62", "key_uuid", "key_custom"}
 StrLike   == {"string", "key_custom"}
 NOpts     == 3      \* the enum every enum field refers to has options 1..NOpts (0 = *_UNSPECIFIED)
-EnumSubsets == {<<1>>, <<2, 3>>, <<1, 2, 3>>, <<3>>}
+\* 0 in a subset names the zero option, which the source enum then declares explicitly (option UNSPECIFIED first)
+EnumSubsets == {<<1>>, <<2, 3>>, <<1, 2, 3>>, <<3>>, <<0>>, <<0, 2>>}
 
 (***************************************************************************)
 (* THE CATALOGUE.  One row per attribute the language can put on a field:  *)
